@@ -212,9 +212,9 @@ def check_C01(tier, rng, rep):
         jobs += pair_jobs(U2, lambda k: [CURVED[k % 3]], rng, per_universe=30, classes=("T",), opts=o)
         jobs += pair_jobs(U3, lambda k: [(POLY + CURVED)[k % 6]], rng, per_universe=80, classes=("T",), opts=o)
     else:
-        jobs += pair_jobs(U2, POLY + CURVED + EXTRA, rng, opts=o)
-        jobs += pair_jobs(["U3hole", "U3chain"], POLY + CURVED, rng, classes=("T",), opts=o)
-        jobs += pair_jobs(["U3venn"], lambda k: [(POLY + CURVED + EXTRA)[k % 9]], rng, classes=("T",), opts=o)
+        jobs += pair_jobs(U2, POLY + CURVED[:2], rng, opts=o)
+        jobs += pair_jobs(U2, ["cubic-float", "poly-mixed", "poly-frac-rot", "sim-mmu-float"], rng, per_universe=150, classes=("T",), opts=o)
+        jobs += pair_jobs(U3, lambda k: [(POLY + CURVED + EXTRA[:2])[k % 8]], rng, per_universe=2500, classes=("T",), opts=o)
     jobs += repr_jobs(["poly-frac", "poly-float"], o)
     res = runner.pool_map(replay.run_case, jobs)
     rep.add_results("pairs", res, nontrivial=nontrivial_pair)
@@ -308,8 +308,8 @@ def check_C03(tier, rng, rep):
         jobs = query_rows(U2, lambda k: [(POLY + CURVED[:2])[k % 5]], rng, per_universe=60)
         jobs += query_rows(U3, lambda k: [(POLY + CURVED[:2])[k % 5]], rng, per_universe=60, classes=("T",))
     else:
-        jobs = query_rows(U2, POLY + CURVED + EXTRA, rng)
-        jobs += query_rows(U3, lambda k: [(POLY + CURVED + EXTRA)[k % 9]], rng, classes=("T", "P"))
+        jobs = query_rows(U2, POLY + CURVED + EXTRA[:2], rng)
+        jobs += query_rows(U3, lambda k: [(POLY + CURVED + EXTRA[:2])[k % 8]], rng, per_universe=3000, classes=("T", "P"))
     res = runner.pool_map(queries.pairq_case, jobs)
     rep.add_results("pairq", res, nontrivial=lambda r: r["row"]["a"] != r["row"]["b"] and r["row"]["a"] and r["row"]["b"])
     history_sims(rep, rng, quick, props={"C03"})
@@ -326,8 +326,8 @@ def check_C07(tier, rng, rep):
         jobs = query_rows(U2, lambda k: [(POLY + CURVED[:2])[k % 5]], rng, per_universe=50)
         jobs += query_rows(U3, lambda k: [(POLY + CURVED[:2])[k % 5]], rng, per_universe=50, classes=("T", "I"))
     else:
-        jobs = query_rows(U2, POLY + CURVED + EXTRA, rng)
-        jobs += query_rows(U3, lambda k: [(POLY + CURVED + EXTRA)[k % 9]], rng)
+        jobs = query_rows(U2, POLY + CURVED + EXTRA[:2], rng)
+        jobs += query_rows(U3, lambda k: [(POLY + CURVED + EXTRA[:2])[k % 8]], rng, per_universe=3000)
     # make sure equal pairs (the interesting direction) are present
     for un in (U2 + U3):
         rows = [r for r in models.pair_rows(un) if r["op"] == "or" and r["a"] == r["b"] and r["a"] not in (0,)]
@@ -371,8 +371,8 @@ def check_C05(tier, rng, rep):
         jobs = query_rows(U2, lambda k: [(POLY + CURVED[:2])[k % 5]], rng, per_universe=40, classes=("T",))
         jobs += query_rows(U3, lambda k: [(POLY + CURVED[:2])[k % 5]], rng, per_universe=40, classes=("T",))
     else:
-        jobs = query_rows(U2, POLY + CURVED + EXTRA, rng, classes=("T",))
-        jobs += query_rows(U3, lambda k: [(POLY + CURVED + EXTRA)[k % 9]], rng, classes=("T",))
+        jobs = query_rows(U2, POLY + CURVED + EXTRA[:2], rng, classes=("T",))
+        jobs += query_rows(U3, lambda k: [(POLY + CURVED + EXTRA[:2])[k % 8]], rng, per_universe=2500, classes=("T",))
     jobs += [(u_, r_, row_, {"via_invert": True}) for (u_, r_, row_, _o) in jobs[::4]]
     res = runner.pool_map(queries.incl_excl_case, jobs)
     rep.add_results("incl", res, nontrivial=nontrivial_pair)
@@ -407,8 +407,9 @@ def check_C06(tier, rng, rep):
         jobs += pair_jobs(U2, lambda k: [rl[k % 7]], rng, per_universe=70, classes=("T",), opts=o)
         jobs += pair_jobs(U3, lambda k: [rl[k % 7]], rng, per_universe=70, classes=("T",), opts=o)
     else:
-        jobs += pair_jobs(U2, POLY + CURVED + EXTRA + ["sim-mmu-float", "sim-mmu-frac"], rng, classes=("T",), opts=o)
-        jobs += pair_jobs(U3, lambda k: [(POLY + CURVED + EXTRA + ["sim-mmu-float", "sim-mmu-frac"])[k % 11]], rng, classes=("T",), opts=o)
+        jobs += pair_jobs(U2, POLY + CURVED[:2] + ["sim-mmu-float", "sim-mmu-frac"], rng, classes=("T",), opts=o)
+        jobs += pair_jobs(U2, ["cubic-float", "poly-mixed", "poly-frac-rot"], rng, per_universe=120, classes=("T",), opts=o)
+        jobs += pair_jobs(U3, lambda k: [(POLY + CURVED + EXTRA[:2] + ["sim-mmu-float", "sim-mmu-frac"])[k % 10]], rng, per_universe=2500, classes=("T",), opts=o)
     for un in U2 + U3:
         rows = singleton_rows(un)
         for k, row in enumerate(runner.sample(rows, 12 if quick else len(rows), rng)):
@@ -458,7 +459,7 @@ def check_C09(tier, rng, rep):
                                                                      props=["OperandsUnchanged", "FreshResults"], invs=["TypeOK", "Canonical"],
                                                                      acts=("make", "transform", "copy", "inv", "alias", "badtransform"), ops=("or",)))
     acts = ("make", "mkreg", "transform", "badtransform", "copy", "inv", "query", "alias")
-    sims, jobs = sim_jobs([rng.choice(U2), rng.choice(U3)] if quick else U2 + U3, ["poly-frac", "poly-float", "quad-float", "poly-int"] if quick else POLY + CURVED + EXTRA,
+    sims, jobs = sim_jobs([rng.choice(U2), rng.choice(U3)] if quick else U2 + U3, ["poly-frac", "poly-float", "quad-float", "poly-int"] if quick else POLY + CURVED + EXTRA[:2],
                           num=30 if quick else 120, depth=10, seed=runner.seed() + 9, opts={"check_c10": False, "deep_all": True},
                           acts=acts, gens=GEN_ALL, maxframe=3, regs=2, maxobj=5, constraint="SimDomain")
     for un, r in sims:
@@ -681,7 +682,7 @@ def check_C12(tier, rng, rep):
         jobs = pair_jobs(U2, lambda k: [sims[k % len(sims)]], rng, per_universe=46, classes=("T",), opts=o, rowfilter=lambda u, r: r["reaches"])
         jobs += pair_jobs(U3, lambda k: [sims[(k + 5) % len(sims)]], rng, per_universe=30, classes=("T",), opts=o, rowfilter=lambda u, r: r["reaches"])
     else:
-        jobs = pair_jobs(U2, sims, rng, classes=("T",), opts=o, rowfilter=lambda u, r: r["reaches"])
+        jobs = pair_jobs(U2, lambda k: [sims[k % len(sims)], sims[(k + 9) % len(sims)]], rng, per_universe=500, classes=("T",), opts=o, rowfilter=lambda u, r: r["reaches"])
         jobs += pair_jobs(U3, lambda k: [sims[k % len(sims)], sims[(k + 7) % len(sims)]], rng, per_universe=1500, classes=("T",), opts=o, rowfilter=lambda u, r: r["reaches"])
     # curved drawings at scale 1e-2: `^` (whose final union joins touching pieces) is outside the
     # explored domain; the six failing rows of the two-atom universes are recorded findings
@@ -730,7 +731,7 @@ def check_C13(tier, rng, rep):
         jobs += pair_jobs(U2[2:4], ["poly-mixed"], rng, per_universe=20, classes=("T",), opts=o)
     else:
         jobs = pair_jobs(U2, reals, rng, classes=("T",), opts=o)
-        jobs += pair_jobs(U3, lambda k: [exact_reals[k % 6]], rng, classes=("T",), opts=o)
+        jobs += pair_jobs(U3, lambda k: [exact_reals[k % 6]], rng, per_universe=3000, classes=("T",), opts=o)
     # recorded finding F-C13-intermediate-cap (fixed row, always run)
     for row in models.pair_rows("U2cross"):
         if (row["op"], row["a"], row["b"]) == ("and", 10, 12):
@@ -769,7 +770,7 @@ def check_C14(tier, rng, rep):
         rows = [r for r in models.pair_rows(un) if r["op"] == "or" and r["cls"] == "T" and r["a"] not in (0,) and r["b"] not in (0,) and (r["xing"] or r["a"] == r["b"])]
         rows = runner.sample(rows, 36 if quick else len(rows), rng)
         for k, row in enumerate(rows):
-            for rn in ([reals[k % len(reals)]] if quick else (reals if un in U2 else [reals[k % len(reals)]])):
+            for rn in ([reals[k % len(reals)]] if quick else ([r_ for r_ in reals if r_ != "quad-frac" or k % 25 == 0] if un in U2 else [reals[k % len(reals)]])):
                 jobs.append((un, rn, row, {}))
     res = runner.pool_map(queries.inter_case, jobs)
     rep.add_results("inter", res, nontrivial=lambda r: r["row"]["a"] != r["row"]["b"])
